@@ -542,26 +542,77 @@ func ruleSetMember(w *World, r *Report, pkg *ssa.Package, tag string, fRemove, f
 			if f == fAdd {
 				wantOther = recv
 			}
-			okc := false
-			for _, b := range fn.Blocks {
-				cond, _, fE, okb := branchEdges(b)
-				if !okb {
-					continue
+			missGuarded := func(at *ssa.BasicBlock) bool {
+				for _, b := range fn.Blocks {
+					cond, tE, fE, okb := branchEdges(b)
+					if !okb {
+						continue
+					}
+					neg := false
+					for {
+						u, isU := cond.(*ssa.UnOp)
+						if !isU || u.Op != token.NOT {
+							break
+						}
+						cond, neg = u.X, !neg
+					}
+					ex, isEx := cond.(*ssa.Extract)
+					if !isEx || ex.Index != 1 {
+						continue
+					}
+					lk, isLk := ex.Tuple.(*ssa.Lookup)
+					if !isLk || !lk.CommaOk {
+						continue
+					}
+					if !d.HasRoot(lk.X, wantOther) {
+						continue
+					}
+					miss := fE
+					if neg {
+						miss = tE
+					}
+					if edgeDominates(miss, at) || (miss.To() == at && len(at.Preds) == 1) {
+						return true
+					}
 				}
-				ex, isEx := cond.(*ssa.Extract)
-				if !isEx || ex.Index != 1 {
-					continue
+				return false
+			}
+			okc := missGuarded(fs.st.Block())
+			if !okc {
+				// the members listed come from a pre-filtered list: every append
+				// that builds the list the loop walks lies on the miss edge
+				builders, guarded := 0, 0
+				for _, el := range appendedElems(fs.st.Val) {
+					vis := map[ssa.Value]bool{}
+					for x := range d.Visited(el) {
+						vis[x] = true
+						// which member is listed is decided by the key it is looked up with
+						if lk, isLk := x.(*ssa.Lookup); isLk {
+							for y := range d.Visited(lk.Index) {
+								vis[y] = true
+							}
+						}
+					}
+					for x := range vis {
+						c, isCall := x.(*ssa.Call)
+						if !isCall || innermostLoop(lps, c.Block()) == nil || c.Block() == fs.st.Block() {
+							continue
+						}
+						if b, isB := c.Call.Value.(*ssa.Builtin); !isB || b.Name() != "append" {
+							continue
+						}
+						if types.Identical(c.Type(), fs.st.Val.Type()) {
+							continue
+						}
+						builders++
+						if missGuarded(c.Block()) {
+							guarded++
+						} else if os.Getenv("JDLINT_DEBUG") != "" {
+							fmt.Fprintf(os.Stderr, "R-SETMEMBER debug: unguarded builder %s at %s\n", c.String(), w.Pos(c.Pos()))
+						}
+					}
 				}
-				lk, isLk := ex.Tuple.(*ssa.Lookup)
-				if !isLk || !lk.CommaOk {
-					continue
-				}
-				if !d.HasRoot(lk.X, wantOther) {
-					continue
-				}
-				if edgeDominates(fE, fs.st.Block()) || fE.To() == fs.st.Block() {
-					okc = true
-				}
+				okc = builders > 0 && builders == guarded
 			}
 			r.Check(okc, rule, key, w.Pos(fs.st.Pos()), "a member is listed only on the miss edge of its lookup among the other side's members",
 				"a member can be listed as "+strings.ToLower(f)+"d although it is present on both sides (not confined to the lookup-miss edge)")
@@ -1816,6 +1867,98 @@ func ruleObjRecurse(w *World, r *Report, pkg *ssa.Package, tag string) {
 	}
 	r.Check(!skipped, rule, fnName(fn)+":both-present-keys-are-diffed", w.Pos(call.Pos()), "every key present on both sides reaches the recursive diff of its values",
 		"a key present on both sides can be passed over without diffing its values (and without an Equals check): unequal values under that key produce no hunk")
+	// one-sided keys: from the miss edge of every comma-ok lookup inside a
+	// loop over keys, each path back to the loop header appends to the diff
+	resT := fn.Signature.Results().At(0).Type()
+	emits := func(b *ssa.BasicBlock) bool {
+		for _, in := range b.Instrs {
+			c, ok := in.(*ssa.Call)
+			if !ok {
+				continue
+			}
+			if bi, ok := c.Call.Value.(*ssa.Builtin); ok && bi.Name() == "append" && types.Identical(c.Type(), resT) {
+				return true
+			}
+		}
+		return false
+	}
+	k := 0
+	for _, lp := range lps {
+		if innermost := innermostLoop(lps, lp.Header); innermost != lp {
+			continue
+		}
+		emitting := false
+		for b := range lp.Blocks {
+			if emits(b) && innermostLoop(lps, b) == lp {
+				emitting = true
+			}
+		}
+		if !emitting {
+			continue // a loop that only collects or counts keys
+		}
+		k++
+		// edges on which the key is known to exist on the other side as well
+		// (handled by the pass over the other object's keys)
+		hit := EdgeSet{}
+		for b := range lp.Blocks {
+			cond, tE, fE, okb := branchEdges(b)
+			if !okb {
+				continue
+			}
+			neg := false
+			c := cond
+			for {
+				u, isU := c.(*ssa.UnOp)
+				if !isU || u.Op != token.NOT {
+					break
+				}
+				c = u.X
+				neg = !neg
+			}
+			if ex, ok := c.(*ssa.Extract); ok && ex.Index == 1 {
+				if lk, ok := ex.Tuple.(*ssa.Lookup); ok && lk.CommaOk {
+					if neg {
+						hit[fE] = true
+					} else {
+						hit[tE] = true
+					}
+				}
+			}
+		}
+		seen := map[*ssa.BasicBlock]bool{}
+		var work []*ssa.BasicBlock
+		for j, nx := range lp.Header.Succs {
+			if lp.Blocks[nx] && !hit[Edge{lp.Header, j}] {
+				work = append(work, nx)
+			}
+		}
+		silent := false
+		for len(work) > 0 {
+			x := work[len(work)-1]
+			work = work[:len(work)-1]
+			if seen[x] || emits(x) {
+				continue
+			}
+			seen[x] = true
+			for j, nx := range x.Succs {
+				if hit[Edge{x, j}] {
+					continue
+				}
+				if nx == lp.Header {
+					silent = true
+				}
+				if lp.Blocks[nx] && nx != lp.Header {
+					work = append(work, nx)
+				}
+			}
+		}
+		r.Check(!silent, rule, fmt.Sprintf("%s:no-key-passed-over-in-silence#%d", fnName(fn), k), w.Pos(firstPos(lp.Header)),
+			"every key this loop visits appends to the diff (a hunk or the sub-diff of its values), unless it is found on the other side as well",
+			"a key can be passed over without appending anything to the diff and without having been found on the other side: the two objects differ there but the diff does not say so")
+	}
+	if k < 1 {
+		r.Bad(rule, fnName(fn)+":emitting-loops", w.Pos(fn.Pos()), "no loop of the object diff appends to the diff")
+	}
 }
 
 // seqParams: indices of the []interface{} parameters of fn, in order.
@@ -1938,6 +2081,29 @@ func ruleBagCount(w *World, r *Report, pkg *ssa.Package, tag, fRemove, fAdd stri
 	lps := loopsOf(fn)
 	recv, other := fn.Params[0], fn.Params[1]
 	n := 0
+	// the rule is written for the counting shape: multiplicities kept in maps
+	// and compared per digest. A diff that is organised differently (e.g. a
+	// merge join over sorted tallies, where "only on this side" is a branch,
+	// not a count) is not decided by it.
+	countsInMaps := false
+	allInstrs(fn, func(in ssa.Instruction) {
+		if lk, ok := in.(*ssa.Lookup); ok {
+			if m, ok := lk.X.Type().Underlying().(*types.Map); ok {
+				switch e := m.Elem().Underlying().(type) {
+				case *types.Basic:
+					if e.Info()&types.IsInteger != 0 {
+						countsInMaps = true
+					}
+				case *types.Struct, *types.Pointer:
+					countsInMaps = true
+				}
+			}
+		}
+	})
+	if !countsInMaps {
+		r.Ok(rule, fnName(fn)+":shape", w.Pos(fn.Pos()), "the multiset diff does not keep multiplicities in maps: this rule makes no claim about it (not decided)")
+		return
+	}
 	for _, f := range []string{fRemove, fAdd} {
 		k := 0
 		for _, fs := range h.fieldStores(fn, f) {
